@@ -10,7 +10,7 @@
      viol  (level 2): a C08 property is false on the OBSERVED values:
        UpdateAtomic, OrderIndependent, WellFormed, MatchesRef (map-based reference),
        PrioBounded, NoClip, RotationExact (reference weighted round-robin), Fair,
-       CopyExact, RecoveryCopyExact, LookupExact, PruneKeeps, ChainExact (updateState).      *)
+       CopyExact, RecoveryCopyExact, ProposerDeterministic (round skips), LookupExact, PruneKeeps, ChainExact (updateState).      *)
 EXTENDS TMValStore, TMValBig, TraceKit
 
 Trace == LoadTrace("trace.ndjson")
@@ -177,6 +177,20 @@ StepSplit(e) ==
   /\ viol' = viol \cup FailIf(fresh /\ ok /\ (e.joint.vals # e.split.vals \/ e.joint.prop # e.split.prop),
                               V("RotationExact", "fresh_set_rounds_do_not_compose"))
   /\ UnchangedStore /\ UnchangedX
+
+\* consensus.State.enterNewRound(height, e.to) called in round e.from < e.to: e.pre / e.post are
+\* cs.Validators before and after, e.prop is cs.Validators.GetProposer() afterwards
+StepRoundSkip(e) ==
+  LET k   == e.to - e.from
+      ok  == e.err = "none" /\ k > 0 /\ Len(e.pre.vals) > 0 /\ Sane(e.pre.vals)
+      ref == RefEach(e.pre.vals, k)
+  IN /\ drift' = drift \cup FailIf(ok /\ SetView(RoundSkipRotate(AsSet(e.pre), k)) # e.post,
+                                    D("enterNewRound (round skip) differs from spec", "roundskip"))
+     /\ viol' = viol
+          \cup FailIf(e.err # "none", V("ProposerDeterministic", "roundskip:" \o e.err))
+          \cup FailIf(ok /\ (e.post.vals # ref.vals \/ e.post.prop.a # ref.props[k] \/ e.prop.a # ref.props[k]),
+                      V("ProposerDeterministic", "roundskip"))
+     /\ UNCHANGED <<cur, fresh>> /\ UnchangedStore /\ UnchangedX
 
 \* ------------------------------------------------------------------ extreme powers (limb form)
 XSetViol(pre, batch, err, post, tag) ==
@@ -377,6 +391,7 @@ Step ==
          [] e.ev = "IncCopy"     -> StepIncCopy(e)
          [] e.ev = "GetProposer" -> StepGetProposer(e)
          [] e.ev = "Split"       -> StepSplit(e)
+         [] e.ev = "RoundSkip"   -> StepRoundSkip(e)
          [] e.ev = "XNew"        -> StepXNew(e)
          [] e.ev = "XUpdate"     -> StepXUpdate(e)
          [] e.ev = "XInc"        -> StepXInc(e)
